@@ -30,7 +30,7 @@ def relation():
     while work:
         s, r = work.pop()
         for b in range(256):
-            s2, _ = U._decode(s, 0, b)
+            s2, _ = sx.unit(U, "_decode")(s, 0, b)
             r2 = utf8ref.step_concrete(r, b)
             if s2 == U._UTF8_REJECT or r2 == utf8ref.DEAD:
                 continue
@@ -61,7 +61,7 @@ def u_sim_step(idx):
     s, r = pairs[idx]
     b = sx.sym_int("b", 8)
     codep = sx.sym_int("codep", 21)
-    s2, c2 = U._decode(s, codep, b)
+    s2, c2 = sx.unit(U, "_decode")(s, codep, b)
     r2 = _ref_step(r, b)
     rej = s2 == U._UTF8_REJECT
     sx.require(sx.Iff(rej, r2 == utf8ref.DEAD), "validator rejects the byte exactly when the reference DFA dies", pair=str((s, r)))
@@ -81,7 +81,7 @@ def u_sim_end(idx, extra):
     w = rel[pairs[idx]]
     tail = sx.sym_bytes("x", extra)
     data = w + tail if extra else w
-    got = U._validate_utf8(data)
+    got = sx.unit(U, "_validate_utf8")(data)
     exp = sx.utf8_valid(data)
     sx.require(sx.Iff(got, exp), "validate_utf8 answer at end of input equals the reference (truncated sequences are ill-formed)",
                pair=str(pairs[idx]))
